@@ -35,7 +35,7 @@ META = {
 }
 RULE = ("a case is a seed for the C19 generator in marker mode; non-trivial = at least two markers are emitted; distinct by "
         "printed sources + configuration")
-FLOORS = {"quick": 3000, "thorough": 100000}
+FLOORS = {"quick": 2500, "thorough": 250000}
 ASSUMPTIONS = ["reference interpreter and printer are correct", "all autoescape functions offered by the generator escape the five specials"]
 REQUIRED_COUNTERS = ["oracle_evals", "markers_checked", "escaped_expected", "raw_expected", "mixed_autoescape_cases",
                      "apply_emits", "nonmain_file_emits"]
@@ -45,7 +45,7 @@ _MK = re.compile(r"mk[bo]?\((\d+)\)")
 
 def shards(tier, seed):
     k = 16
-    n = 8000 if tier == "quick" else 320000
+    n = 8000 if tier == "quick" else 800000
     return [{"n": n // k, "j": j} for j in range(k)]
 
 
